@@ -240,6 +240,7 @@ inline bool enum_text_op(const Toks &t, Result &r) {
 inline void gen_struct_ops(vh::Rng &rng, bool thorough, std::vector<std::string> &lines) {
     static const std::vector<std::string> extra = {"foo", "tolerance", "max_iter", "block", "type", "class", "nvecs", "eps", "Damping", "solver_", "x"};
     for (auto &S : registry()) {
+        lines.push_back("params_compiles " + S.name);
         lines.push_back("params_fields " + S.name);
         lines.push_back("params_export_keys " + S.name);
         for (auto &f : S.fields) {
@@ -277,6 +278,7 @@ inline void gen_malformed(std::vector<std::string> &lines) {
     lines.push_back("params_unknown detail::empty_params");
     lines.push_back("params_enum_print no_such_enum cg");
     lines.push_back("params_fields");
+    lines.push_back("params_compiles no_such_struct");
     lines.push_back("params_export_keys a b");
 }
 
